@@ -9,7 +9,9 @@
 (*     collection) and thus deserialised here by TLC's own Json module -    *)
 (*     an independent reader; back: the JSON form of the value              *)
 (*     polyjson.Read returned; seqsbefore / seqsafter: every feature's      *)
-(*     GetSequence() before writing and after reading.                      *)
+(*     GetSequence() before writing and after reading ("<unresolvable>" for *)
+(*     a feature whose location does not lie on the sequence, which the     *)
+(*     harness does not ask for its bases).                                 *)
 (*  [k|->"conv", fmt, same]                                                 *)
 (*     Build_fmt(Parse_json(Write_json(Parse_fmt(text)))) = Build_fmt(      *)
 (*     Parse_fmt(text)) compared as strings by the harness.                 *)
@@ -21,7 +23,9 @@ Judge(e) ==
     ELSE LET want == JSequence(e.x) IN
     IF e.json # want THEN "the JSON text does not have the published form (keys / nesting / values) of the value written"
     ELSE IF e.back # want THEN "reading the JSON back yields a value that differs from the one written"
-    ELSE IF \E i \in 1..Len(e.x.features) : e.seqsafter[i] # StructBases(e.x.features[i].loc, e.x.sequence)
+    ELSE IF Len(e.seqsafter) # Len(e.x.features) THEN "the number of features changed"
+    ELSE IF \E i \in 1..Len(e.x.features) :
+              e.seqsafter[i] # (IF Resolvable(e.x.features[i].loc, Len(e.x.sequence)) THEN StructBases(e.x.features[i].loc, e.x.sequence) ELSE "<unresolvable>")
          THEN "a feature does not report its bases after the JSON round trip (parent link / location tree)"
     ELSE IF e.seqsbefore # e.seqsafter THEN "a feature reports a different sequence after the round trip"
     ELSE "ok"
